@@ -215,7 +215,7 @@ def witness_stream(ctx):
 def run(ctx):
     su.quiet()
     uninitialised_stream(ctx)
-    tie_stream(ctx, ctx.n(700, 8000))
+    tie_stream(ctx, ctx.n(700, 6000))
     witness_stream(ctx)
     from .. import gloo_runner
     gloo_runner.gloo_stream(ctx, [lambda rng, W: gen_toolkit(rng, only_W=W)], toolkit=True)
